@@ -764,6 +764,10 @@ POSITIONS = {
     "eager_arg": "pipeline:\n  - !C18Eager {a: NODE}\n",
     "eager_deep": "pipeline:\n  - !C18Eager {a: {b: [1, NODE]}}\n",
     "eager_map_key": "pipeline:\n  - !C18Eager {a: {? NODE : 1}}\n",
+    # a KEY of the registered tag's own argument mapping (lead, after the seeded-change round)
+    "lazy_direct_key": "pipeline:\n  - !C18Lazy {? NODE : 1}\n",
+    "eager_direct_key": "pipeline:\n  - !C18Eager {? NODE : 1}\n",
+    "lazy_direct_key_2nd": "pipeline:\n  - !C18Lazy {a: 0, ? NODE : 1, b: 2}\n",
     "real_plugin_arg": "pipeline:\n  - !LinearController {low_utilisation: NODE}\n  - !C18Lazy {}\n",
     "type_arg": "pipeline:\n  - {__type__: c18_plugins.plain_factory, a: NODE}\n",
     "section_nested": HEAD + "c18section: {x: [ {y: NODE} ]}\n",
